@@ -747,4 +747,52 @@ theorem logInv_run (ops : List TOp) : ∀ (tm : TM), LogInv tm → LogInv (tm.ru
 
 theorem logInv_init : LogInv ({} : TM) := ⟨trivial, (by intro t ht; cases ht), (by intro c hc; cases hc)⟩
 
+
+/-! ### service: strategies of an unloaded overlay -/
+
+def SvcForeign (o : Nat) : SOp → Prop
+  | .add o' _ => o' ≠ o
+  | .unload _ => True
+
+def SvcClean (o : Nat) (s : Svc) : Prop := (∀ e ∈ s.strategies, e.2 ≠ o) ∧ o ∉ s.overlays
+
+theorem svcClean_unload (s : Svc) (o : Nat) : SvcClean o (s.unloadOverlay o) := by
+  constructor
+  · intro e he
+    have := (List.mem_filter.mp he).2
+    simpa using this
+  · intro hm
+    have := (List.mem_filter.mp hm).2
+    simp at this
+
+theorem svcClean_step {o : Nat} {s : Svc} {op : SOp} (hf : SvcForeign o op) (h : SvcClean o s) : SvcClean o (s.step op) := by
+  obtain ⟨h1, h2⟩ := h
+  cases op with
+  | add o' sid =>
+    constructor
+    · intro e he
+      simp only [Svc.step, Svc.addStrategy] at he
+      rcases List.mem_append.mp he with he | he
+      · exact h1 e he
+      · simp at he; subst he; exact hf
+    · simp only [Svc.step, Svc.addStrategy]
+      split
+      · exact h2
+      · intro hm
+        rcases List.mem_append.mp hm with hm | hm
+        · exact h2 hm
+        · simp at hm; exact hf hm.symm
+  | unload o' =>
+    constructor
+    · intro e he; exact h1 e (List.mem_filter.mp he).1
+    · intro hm; exact h2 (List.mem_filter.mp hm).1
+
+theorem svcClean_run {o : Nat} (ops : List SOp) : ∀ (s : Svc), (∀ op ∈ ops, SvcForeign o op) → SvcClean o s → SvcClean o (s.run ops) := by
+  induction ops with
+  | nil => intro s _ h; exact h
+  | cons op rest ih =>
+    intro s hf h
+    simp only [Svc.run, List.foldl_cons]
+    exact ih _ (fun x hx => hf x (List.mem_cons_of_mem _ hx)) (svcClean_step (hf op List.mem_cons_self) h)
+
 end Ipv8.C11
